@@ -58,6 +58,8 @@ type instance struct {
 	// its change while streams open — a random stored change, or, for a service that streams one value, the
 	// creation of an item
 	Hold func(g *mt.Gen)
+	// History (optional; wastepb): every record the model has appended, oldest first
+	History func() []proto.Message
 }
 
 func (inst *instance) hold() func(g *mt.Gen) {
@@ -421,6 +423,15 @@ var creaders = []creader{
 				return wastepb.WrapApi(s).PullWasteRecords(ctx, &traits.PullWasteRecordsRequest{Name: "dev", ReadMask: mask})
 			}
 			inst.Seeds = func() int { n := m.GetWasteRecordCount(); if n > 50 { n = 50 }; return n }
+			inst.History = func() []proto.Message {
+				n := m.GetWasteRecordCount()
+				rs := m.ListWasteRecords(n, n) // latest first
+				out := make([]proto.Message, len(rs))
+				for i, r := range rs {
+					out[len(rs)-1-i] = r
+				}
+				return out
+			}
 			wire(inst, crud{Key: "id", MarkerOnly: true, NewItem: func() proto.Message { return &traits.WasteRecord{} },
 				Create: func(x proto.Message) (proto.Message, error) { return m.AddWasteRecord(x.(*traits.WasteRecord)) }})
 			return inst
@@ -460,6 +471,7 @@ type cout struct {
 	Stream   string // pull: missing or unexpected events
 	Dropped  int    // updates: changes the masked stream left out because both projections were equal
 	Held     bool   // updates: the pending first write was held between its commit and its publication
+	Hist     []proto.Message // seeds: the model's history when the streams opened (readers with a History)
 }
 
 func canonAll(ms []proto.Message) string {
@@ -513,6 +525,9 @@ func (c ccase) run() cout {
 			}
 			n := inst.Seeds()
 			before := cloneAll(inst.Read(nil))
+			if inst.History != nil {
+				out.Hist = cloneAll(inst.History())
+			}
 			out.Raw = collectSeeds(inst, nil, n, &out)
 			if out.Stream == "" {
 				out.Got = collectSeeds(inst, fm, n, &out)
@@ -751,9 +766,10 @@ func (c ccase) monitor(mon *lib.Monitor, out cout) {
 	}
 }
 
-func runComposed(cases []ccase, tie *lib.Tie, mon *lib.Monitor, drv *lib.Driver) {
+func runComposed(cases []ccase, tie, wtie *lib.Tie, mon *lib.Monitor, drv *lib.Driver) {
 	outs := make([]cout, len(cases))
 	var lines []string
+	defer func() { runWasteTie(cases, outs, wtie, drv) }()
 	for i := range cases {
 		outs[i] = cases[i].run()
 		if len(outs[i].Raw) > 0 {
@@ -977,4 +993,48 @@ func undrivenComposers() (found, undriven []string) {
 	sort.Strings(found)
 	sort.Strings(undriven)
 	return
+}
+
+// runWasteTie: the adapter model of wastepb ModelServer.PullWasteRecords (ScVerif/C06/Waste.lean): told the
+// model's history when the streams opened and what lastWasteRecord held (the value the unmasked stream sends
+// last: with a held AddWasteRecord NOT the last historical record), it predicts every seed value of the
+// unmasked and of the masked stream.
+func runWasteTie(cases []ccase, outs []cout, wtie *lib.Tie, drv *lib.Driver) {
+	var lines []string
+	var idx []int
+	for i, c := range cases {
+		out := outs[i]
+		if c.Mode != "seeds" || out.Hist == nil || out.Panic != "" || out.Stream != "" || len(out.Raw) == 0 || len(out.Got) != len(out.Raw) {
+			continue
+		}
+		var hist []string
+		for _, r := range out.Hist {
+			hist = append(hist, mt.CanonMsg(r))
+		}
+		tail := fmt.Sprintf("U0 %d %s %s", len(hist), strings.Join(hist, " "), mt.CanonMsg(out.Raw[len(out.Raw)-1]))
+		lines = append(lines, "wpull ~ "+tail, "wpull "+c.Mask.Enc()+" "+tail)
+		idx = append(idx, i)
+	}
+	if len(lines) == 0 {
+		return
+	}
+	ans, err := drv.Batch(lines)
+	if err != nil {
+		wtie.Fail(err)
+		return
+	}
+	for k, i := range idx {
+		c, out := cases[i], outs[i]
+		flat := func(ms []proto.Message) string {
+			var xs []string
+			for _, m := range ms {
+				xs = append(xs, msgText(m))
+			}
+			return strings.Join(xs, " ")
+		}
+		nontrivial := !c.Mask.Nil && len(c.Mask.Paths) > 0
+		wtie.Record(c.key(), nontrivial, c, "unmasked: "+ans[2*k]+" ; masked: "+ans[2*k+1], "unmasked: "+flat(out.Raw)+" ; masked: "+flat(out.Got))
+		wtie.Count(fmt.Sprintf("history:%d seeds:%d", len(out.Hist), len(out.Raw)))
+		wtie.Count(fmt.Sprintf("writer-held-mid-add:%v", out.Held))
+	}
 }
